@@ -7,6 +7,7 @@
 package c19
 
 import (
+	"encoding/binary"
 	"fmt"
 	"os"
 	"strconv"
@@ -17,6 +18,7 @@ import (
 
 	"github.com/influxdata/influxdb/models"
 	"github.com/influxdata/influxdb/services/hh"
+	"github.com/influxdata/influxdb/services/meta"
 	"github.com/influxdata/influxdb/tsdb"
 	"verifharness/fw"
 	"verifharness/shardh"
@@ -335,6 +337,129 @@ func hhStress(seed uint64, ms int) string {
 	return "ok"
 }
 
+// hhSender: the real sender (NodeProcessor.SendWrite in a loop, as its background goroutine
+// runs it) against concurrent accepted writes: every acknowledged block reaches the shard
+// writer, in per-appender order, none is skipped.
+type hhRec struct {
+	mu   sync.Mutex
+	next [4]int64
+	bad  string
+}
+
+func (w *hhRec) WriteShardBinary(shardID, ownerID uint64, points [][]byte) error {
+	w.mu.Lock()
+	defer w.mu.Unlock()
+	for _, pt := range points {
+		p := strings.SplitN(string(pt), ":", 3)
+		if len(p) != 3 {
+			w.bad = "malformed block delivered"
+			continue
+		}
+		a, i := int(i64(p[0])), i64(p[1])
+		switch {
+		case a < 0 || a >= len(w.next):
+			w.bad = "malformed block delivered"
+		case i < w.next[a]:
+			// delivered again: allowed (at least once)
+		case i > w.next[a]:
+			if w.bad == "" {
+				w.bad = fmt.Sprintf("appender %d: block %d delivered, %d expected (skipped)", a, i, w.next[a])
+			}
+			w.next[a] = i + 1
+		default:
+			w.next[a]++
+		}
+	}
+	return nil
+}
+
+type hhNode struct{}
+
+func (hhNode) DataNode(id uint64) (*meta.NodeInfo, error) { return &meta.NodeInfo{ID: id}, nil }
+
+func hhSender(seed uint64, ms int) string {
+	dir, _ := os.MkdirTemp(shardh.WorkDir("stress"), "hs-")
+	defer os.RemoveAll(dir)
+	cfg := hh.NewConfig()
+	cfg.MaxSize = 1 << 30
+	cfg.MaxWritesPending = 16
+	rec := &hhRec{}
+	proc := hh.NewNodeProcessor(cfg, 2, 1, dir, rec, hhNode{})
+	if err := hh.VerifOpenProcessor(proc); err != nil {
+		return "err:" + strings.ReplaceAll(err.Error(), " ", "_")
+	}
+	q := hh.VerifProcessorQueue(proc)
+	q.SetMaxSegmentSize(4096)
+	defer q.Close()
+	const appenders = 4
+	var sent [appenders]int64
+	stop := make(chan struct{})
+	var wg sync.WaitGroup
+	for a := 0; a < appenders; a++ {
+		wg.Add(1)
+		go func(a int) {
+			defer wg.Done()
+			for i := int64(0); ; i++ {
+				select {
+				case <-stop:
+					return
+				default:
+				}
+				pt := fmt.Sprintf("%d:%d:%s", a, i, strings.Repeat("x", int(seed+uint64(i))%200))
+				b := make([]byte, 12, 12+len(pt))
+				binary.BigEndian.PutUint32(b[8:12], uint32(len(pt)))
+				b = append(b, pt...)
+				if err := q.Append(b); err != nil {
+					return
+				}
+				atomic.AddInt64(&sent[a], 1)
+				if i%7 == 0 {
+					time.Sleep(50 * time.Microsecond) // let the sender catch up: the queue is often empty
+				}
+			}
+		}(a)
+	}
+	wg.Add(1)
+	go func() {
+		defer wg.Done()
+		for {
+			select {
+			case <-stop:
+				return
+			default:
+			}
+			proc.SendWrite()
+		}
+	}()
+	time.Sleep(time.Duration(ms) * time.Millisecond)
+	close(stop)
+	done := make(chan struct{})
+	go func() { wg.Wait(); close(done) }()
+	select {
+	case <-done:
+	case <-time.After(60 * time.Second):
+		return "DEADLOCK: hinted-handoff sender or writers did not stop"
+	}
+	for k := 0; k < 3; {
+		if _, err := proc.SendWrite(); err != nil {
+			k++
+		} else {
+			k = 0
+		}
+	}
+	rec.mu.Lock()
+	defer rec.mu.Unlock()
+	if rec.bad != "" {
+		return "HH " + strings.ReplaceAll(rec.bad, " ", "_")
+	}
+	for a := 0; a < appenders; a++ {
+		if rec.next[a] != sent[a] {
+			return fmt.Sprintf("HH appender_%d:_%d_blocks_acknowledged,_%d_delivered", a, sent[a], rec.next[a])
+		}
+	}
+	return "ok"
+}
+
 func runOp(op string) (out string) {
 	defer func() {
 		if r := recover(); r != nil {
@@ -353,6 +478,8 @@ func runOp(op string) (out string) {
 		return fieldRace(uint64(i64(f[1])), f[2], rounds)
 	case "stress-hh":
 		return hhStress(uint64(i64(f[1])), int(i64(f[2])))
+	case "stress-hhsend":
+		return hhSender(uint64(i64(f[1])), int(i64(f[2])))
 	}
 	return "bad-op"
 }
@@ -376,12 +503,13 @@ func (Prop) Generate(r *fw.Rand, tier string) []fw.Case {
 		cases = append(cases, fw.Case{Ops: []string{fmt.Sprintf("stress-shard %d %s %d", r.Intn(1000), idx, ms)}, Tags: []string{"shard"}})
 		cases = append(cases, fw.Case{Ops: []string{fmt.Sprintf("stress-field %d %s %d", r.Intn(1000), idx, ms*2)}, Tags: []string{"field"}})
 		cases = append(cases, fw.Case{Ops: []string{fmt.Sprintf("stress-hh %d %d", r.Intn(1000), ms)}, Tags: []string{"hh"}})
+		cases = append(cases, fw.Case{Ops: []string{fmt.Sprintf("stress-hhsend %d %d", r.Intn(1000), ms)}, Tags: []string{"hhsend"}})
 	}
 	return cases
 }
 
 func (Prop) Describe(cfg *fw.Config) {
-	cfg.Rule = "stress scenarios on real components: (shard) 4 writers with their own series, a snapshotter, a compactor of all files, a writer+deleter of another measurement and 2 readers on one shard for 0.4 s (quick) / 1.5 s (thorough), inmem and tsi1: every read must hold all points acknowledged before it began, and at rest and after a reopen all acknowledged points; (field) 800 (quick) / 3000 (thorough) rounds of 4 goroutines writing one new field with four different types: exactly one is accepted and exactly its value is readable; (hh) 4 appenders and a drainer on a hinted-handoff queue with 4 KB segments: every acknowledged block is drained once, in per-appender order; a watchdog reports workers that do not stop; thorough tier: the harness is built with the Go race detector (a report ends the run); non-trivial = every scenario; distinct = distinct op list"
+	cfg.Rule = "stress scenarios on real components: (shard) 4 writers with their own series, a snapshotter, a compactor of all files, a writer+deleter of another measurement and 2 readers on one shard for 0.4 s (quick) / 1.5 s (thorough), inmem and tsi1: every read must hold all points acknowledged before it began, and at rest and after a reopen all acknowledged points; (field) 800 (quick) / 3000 (thorough) rounds of 4 goroutines writing one new field with four different types: exactly one is accepted and exactly its value is readable; (hh) 4 appenders and a drainer on a hinted-handoff queue with 4 KB segments: every acknowledged block is drained once, in per-appender order; (hhsend) 4 appenders against the real sender (NodeProcessor.SendWrite in a loop) with a recording shard writer: every acknowledged block is delivered, in per-appender order, none skipped; a watchdog reports workers that do not stop; thorough tier: the harness is built with the Go race detector (a report ends the run); non-trivial = every scenario; distinct = distinct op list"
 }
 
 func (Prop) Trivial(c fw.Case, out []string) bool { return false }
